@@ -10,8 +10,8 @@
    (Proofs/C53Idx, C53Delta, C53Tree, C53Index, C53Pack, C53Rev, C53Graph,
    C53ObjFile, C53Lines; wildmatch from Proofs/C49Total).  PARTIAL by design:
    unmodelled library code (zlib, bufio, gcfg, goroutine plumbing), the
-   depth-first delta resolution of the pack parser and the reflog / refname /
-   capability-list scanners are exercised by the harness only. *)
+   packfile.Packfile read paths and the refname / capability-list / protocol v2
+   scanners are exercised by the harness only. *)
 From Coq Require Import List NArith ZArith Bool.
 From GoGit Require Import Base.Out Gen.C34 Gen.C53 Model.PktLine Model.Sideband Model.Packp Model.C53Varint
   Proofs.C34Stream Proofs.C34Hex Proofs.C34Pkt Proofs.C34Sideband Proofs.C35Base Proofs.C53.
@@ -349,6 +349,27 @@ Theorem C53_ident_alloc : forall b,
   (List.length (Ident.id_email (Ident.decode_ident b)) <= List.length b)%nat.
 Proof. exact C53Lines.decode_ident_alloc. Qed.
 Print Assumptions C53_ident_alloc.
+
+(* ---- pack parser: depth-first delta resolution (visit) ---- *)
+From GoGit Require Proofs.C53Visit Proofs.C53Reflog Model.Reflog.
+
+(* every nested visit follows a delta that has just been marked done: with fuel above the number of
+   undone deltas, more fuel never changes the answer; the resolver's fuel |entries|+1 is such a fuel *)
+Theorem C53_pack_visit_total :
+  (forall hs Hsz ext refs ofss f pid poff s g, (C53Visit.undone refs ofss s < f)%nat -> (f <= g)%nat ->
+     PackParse.visit hs Hsz g ext refs ofss pid poff s = PackParse.visit hs Hsz f ext refs ofss pid poff s) /\
+  (forall hs Hsz ext (es : list PackParse.ohdr) pid poff s g,
+     let refs := filter (fun e => match PackParse.oh_type e with PackParse.TRef => true | _ => false end) es in
+     let ofss := filter (fun e => match PackParse.oh_type e with PackParse.TOfs => true | _ => false end) es in
+     (S (List.length es) <= g)%nat ->
+     PackParse.visit hs Hsz g ext refs ofss pid poff s = PackParse.visit hs Hsz (S (List.length es)) ext refs ofss pid poff s).
+Proof. split; [exact C53Visit.visit_stable|exact C53Visit.resolve_visit_stable]. Qed.
+Print Assumptions C53_pack_visit_total.
+
+(* ---- reflog ---- *)
+Theorem C53_reflog_alloc : forall file l, Reflog.decode file = Some l -> (List.length l <= List.length file)%nat.
+Proof. exact C53Reflog.decode_alloc. Qed.
+Print Assumptions C53_reflog_alloc.
 
 (* ---------- non-vacuity ---------- *)
 From Coq Require Import String.
